@@ -31,11 +31,12 @@ def execute(ctx, items, nproc=8):
     def one(it):
         cmd, case, procs = it
         res = ctx.run_vh([cmd], case, timeout=3000, env_extra={"GOMAXPROCS": str(procs)} if procs else None)
-        if len(res) != 1:
-            raise Infra("%s returned %d records" % (cmd, len(res)))
-        return res[0]
+        want = 1 + (case.get("reps", 0) if isinstance(case, dict) else 0)
+        if len(res) != want:
+            raise Infra("%s returned %d records, expected %d" % (cmd, len(res), want))
+        return res
     with ThreadPoolExecutor(nproc) as ex:
-        return list(ex.map(one, items))
+        return [r for rs in ex.map(one, items) for r in rs]
 
 
 def validate(ctx, records, mod, reps, label):
